@@ -22,7 +22,15 @@ def case_key(r, case):
 
 
 def obs_key(r):
-    return json.dumps([r.get("obs"), r.get("psz")], separators=(",", ":"))
+    obs = r.get("obs")
+    if r.get("at") == "cg" and isinstance(obs, list) and all(isinstance(x, int) for x in obs):
+        # the order of the operand-size / address-size prefixes carries no meaning: a listed wrong encoding stays the
+        # same finding when only 66h and 67h change places
+        n = 0
+        while n < len(obs) and obs[n] in (0x66, 0x67):
+            n += 1
+        obs = sorted(obs[:n]) + obs[n:]
+    return json.dumps([obs, r.get("psz")], separators=(",", ":"))
 
 
 def entry_hash(r, case):
